@@ -3,8 +3,8 @@ package load
 import (
 	_ "embed"
 	"fmt"
-	"os"
 	"go/types"
+	"os"
 	"sort"
 	"strings"
 
@@ -51,13 +51,18 @@ func StructFieldsOf(prog *ssa.Program) map[string][][2]string {
 			if !ok {
 				continue
 			}
-			st, ok := named.Underlying().(*types.Struct)
-			if !ok || strings.HasSuffix(prog.Fset.Position(named.Obj().Pos()).Filename, "_test.go") {
+			if strings.HasSuffix(prog.Fset.Position(named.Obj().Pos()).Filename, "_test.go") {
 				continue
 			}
 			key := sp.Pkg.Path() + "." + named.Obj().Name()
-			for i := 0; i < st.NumFields(); i++ {
-				out[key] = append(out[key], [2]string{st.Field(i).Name(), types.TypeString(st.Field(i).Type(), nil)})
+			if st, ok := named.Underlying().(*types.Struct); ok {
+				for i := 0; i < st.NumFields(); i++ {
+					out[key] = append(out[key], [2]string{st.Field(i).Name(), types.TypeString(st.Field(i).Type(), nil)})
+				}
+			} else if _, isIface := named.Underlying().(*types.Interface); isIface {
+				continue // interfaces are API, their methods are named in calls: not aliased
+			} else {
+				out[key] = append(out[key], [2]string{"=", types.TypeString(named.Underlying(), nil)}) // e.g. "= int", "= func(...)"
 			}
 			// declared methods, as pseudo-fields "()Name": they tell field-less types apart
 			var ms [][2]string
@@ -177,13 +182,13 @@ func fieldAliases(prog *ssa.Program) []string {
 		}
 		goneByType := map[string][]string{}
 		for _, f := range was {
-			if !has[f[0]] && !strings.HasPrefix(f[0], "()") {
+			if !has[f[0]] && !strings.HasPrefix(f[0], "()") && f[0] != "=" {
 				goneByType[f[1]] = append(goneByType[f[1]], f[0])
 			}
 		}
 		newByType := map[string][]string{}
 		for _, f := range now {
-			if !had[f[0]] && !strings.HasPrefix(f[0], "()") {
+			if !had[f[0]] && !strings.HasPrefix(f[0], "()") && f[0] != "=" {
 				newByType[f[1]] = append(newByType[f[1]], f[0])
 			}
 		}
@@ -205,9 +210,11 @@ func fieldAliases(prog *ssa.Program) []string {
 // their callers like glue, so that a tree that calls the helper and a tree in which a maintainer has
 // inlined it by hand present the same shape to the rules (which are phrased on the callers).
 var transparent = map[string]bool{
-	"(*go.amzn.com/lambda/core.InternalAgent).subscribeUnsafe": true,
-	"(*go.amzn.com/lambda/core.ExternalAgent).subscribeUnsafe": true,
+	"(*go.amzn.com/lambda/core.InternalAgent).subscribeUnsafe":                          true,
+	"(*go.amzn.com/lambda/core.ExternalAgent).subscribeUnsafe":                          true,
 	"(*go.amzn.com/lambda/rapidcore/env.Environment).mergeCustomerEnvironmentVariables": true,
+	"go.amzn.com/lambda/core/directinvoke.renderBadRequest":                             true,
+	"go.amzn.com/lambda/core/directinvoke.renderInternalServerError":                    true,
 }
 
 // baselineSet: name -> signature key ("" when the table has none)
@@ -380,7 +387,32 @@ func normalise(prog *ssa.Program) (map[*ssa.Function]bool, *ssa.VerifNorm, []str
 			if len(gone) == 1 && len(new2[k]) == 1 {
 				fn := new2[k][0]
 				FuncAlias[fn] = gone[0]
+				matched[gone[0]], matchedFn[fn] = true, true
 				renames = append(renames, fn.String()+": taken to be "+gone[0]+" in another form")
+			}
+		}
+		// third pass: a method that did not use its receiver turned into a plain function of the same name (or a
+		// function given a receiver): same package, same name, same parameters apart from the receiver
+		simple := func(name string) string { return name[strings.LastIndex(name, ".")+1:] }
+		new3 := map[string][]*ssa.Function{}
+		for _, fn := range fns {
+			if !baselineSet[canonName(fn)] && !matchedFn[fn] {
+				k := fn.Pkg.Pkg.Path() + "|" + fn.Name() + "|" + SigKey(fn.Signature)
+				new3[k] = append(new3[k], fn)
+			}
+		}
+		gone3 := map[string][]string{}
+		for name := range baselineSet {
+			if !present[name] && !matched[name] && baselineSig[name] != "" {
+				k := pkgOfName(name) + "|" + simple(name) + "|" + baselineSig[name]
+				gone3[k] = append(gone3[k], name)
+			}
+		}
+		for k, gone := range gone3 {
+			if len(gone) == 1 && len(new3[k]) == 1 {
+				fn := new3[k][0]
+				FuncAlias[fn] = gone[0]
+				renames = append(renames, fn.String()+": taken to be "+gone[0]+" with its receiver dropped or added")
 			}
 		}
 	}
